@@ -88,6 +88,9 @@ var traitKindNames = func() []string {
 		if len(k) == 3 && k[0] == 'p' && (k[2] == '0' || k[2] == '1') {
 			continue // session kinds are not drawn at random
 		}
+		if strings.HasSuffix(k, "bare") || k == "nsame" {
+			continue // bare-literal kinds collide with each other by construction; used in fixed cases only
+		}
 		r = append(r, k)
 	}
 	sort.Strings(r)
